@@ -3,8 +3,14 @@
 //! `<cid>_<q|t>_<what>`: `q` harnesses form the quick tier, the thorough tier runs all.
 #![allow(unused, clippy::all, static_mut_refs)]
 pub mod util;
+mod probes;
+mod c01;
 mod c04;
 mod c07;
 mod c10;
 mod c11;
 mod c12;
+mod c13;
+mod c14;
+mod c15;
+mod c18;
